@@ -33,7 +33,7 @@ import (
 
 // Characters Please's quote() wraps, and inert punctuation: expansions must survive unquoted use.
 var safeOutChars = []string{";", "&", "(", ")", "<", ">", "|", ",", "+", "=", "@", "%", "~", "#", "^", "!"}
-var safePkgChars = []string{";", "<", ">", ",", "+", "=", "@", "%", "~", "#", "^", "!"}
+var safePkgChars = []string{";", "<", ">", ",", "+", "@", "%", "~", "#", "^", "!"} // no "=": a relative path starting with name= is a shell assignment
 
 // Shell-significant characters that quote() does not handle (DESIGN §5 suspect).
 type unsafeFeature struct{ Name, Char string }
